@@ -41,3 +41,43 @@ def _t(v):
     if t.__name__ == "Decimal":
         return ("decimal", str(v))
     return ("obj", t.__name__, _t(getattr(v, "__dict__", None)))
+
+
+# ---------------------------------------------------------------------------
+# functions for OVERLAPPING calls of one cached wrapper (recursion through the wrapper, two threads, two asyncio tasks)
+
+REC = None        # the cached wrapper of rec, set by the session
+OVERLAP_LOG = []
+
+
+def rec(n, tag):
+    """calls its own cached wrapper: the cache misses of rec(n), rec(n-1), ... are open at the same time"""
+    OVERLAP_LOG.append(("rec", n))
+    if n == 0:
+        return (tag, 0)
+    return (tag, n, REC(n - 1, tag))
+
+
+def rec_plain(n, tag):
+    return (tag, 0) if n == 0 else (tag, n, rec_plain(n - 1, tag))
+
+
+def slow(x, tag, started=None, go=None):
+    """signals that its computation has started, then waits for permission to finish"""
+    import time
+    OVERLAP_LOG.append(("slow", x))
+    if started is not None:
+        open(started, "w").close()
+    if go is not None:
+        import os
+        t0 = time.time()
+        while not os.path.exists(go) and time.time() - t0 < 10:
+            time.sleep(0.002)
+    return ("slow", tag, x)
+
+
+async def aslow(x, tag):
+    import asyncio
+    OVERLAP_LOG.append(("aslow", x))
+    await asyncio.sleep(0.02 if x % 2 else 0.04)
+    return ("aslow", tag, x)
